@@ -1662,3 +1662,148 @@ Proof.
   intros H Hok. destruct (enc_descriptor_bytes d its H Hok) as (body & E & Hl & _).
   destruct (emitted_wrap d) as [Ec Ee]. exists body. rewrite <- Ee. auto.
 Qed.
+
+(* ================= part E: loops of several descriptors of mixed tags ================= *)
+
+(* what one entry of a loop parses back to: a descriptor whose body is empty (an empty list, an empty name: S7)
+   comes back as the bare header; otherwise the body-level round trip of its tag applies *)
+Definition entry_rt (d d' : Descriptor) : Prop :=
+  0 <= Descriptor_Tag d < 256 /\ desc_size d < 256 /\
+  ((desc_size d = 0 /\ d' = desc_hdr (Descriptor_Tag d) 0) \/ (0 < desc_size d /\ body_rt d d')).
+
+Definition body_facts (d : Descriptor) (b : list Z) : Prop :=
+  zlen b = desc_size d /\
+  (desc_size d = 0 -> b = []) /\
+  (0 < desc_size d -> exists bi, enc_descriptor_body d = Ok bi /\ items_bytes_ok bi /\ b = bytes_of_items bi).
+
+Lemma enc_descriptor_body_facts d its : enc_descriptor d = Ok its -> items_bytes_ok its -> desc_size d < 256 ->
+  exists b, bytes_of_items its = entry_bytes d b /\ body_facts d b /\ bitlen its = 8 * (2 + desc_size d).
+Proof.
+  intros H Hok Hs. pose proof (desc_size_nonneg d) as Hnn. destruct (emitted_nowrap d Hs) as [Ee Ec].
+  unfold enc_descriptor in H. rewrite Ec in H. destruct (desc_size d =? 0) eqn:Ez.
+  - inversion H; subst its. exists []. split; [|split].
+    + unfold entry_bytes. rewrite app_nil_r, Ec. apply bytes_of_two_u8.
+    + split; [unfold zlen; cbn; lia|]. split; [reflexivity|lia].
+    + unfold wu8. bl. lia.
+  - destruct (enc_descriptor_body d) as [bi| |] eqn:Ebi; cbn [res_map] in H; try discriminate H.
+    assert (Ei : its = [wu8 (Descriptor_Tag d); wu8 (desc_size d)] ++ bi) by (inversion H; reflexivity). subst its.
+    apply items_bytes_ok_app_inv in Hok. destruct Hok as [Hoh Hob].
+    pose proof (enc_descriptor_body_size d bi Ebi) as Hbl.
+    exists (bytes_of_items bi). split; [|split].
+    + rewrite (bytes_of_items_app _ _ 2) by (auto; unfold wu8; bl; reflexivity). rewrite bytes_of_two_u8. unfold entry_bytes. rewrite Ec. reflexivity.
+    + split; [apply bytes_of_items_zlen; assumption|]. split; [lia|]. intros _. exists bi. auto.
+    + rewrite bitlen_app, Hbl. unfold wu8. bl. lia.
+Qed.
+
+Lemma enc_descriptors_bodies ds : forall its, enc_descriptors ds = Ok its -> items_bytes_ok its ->
+  Forall (fun d => desc_size d < 256) ds ->
+  exists bodies, bytes_of_items its = loop_bytes ds bodies /\ Forall2 body_facts ds bodies.
+Proof.
+  induction ds as [|d ds IH]; intros its H Hok HF.
+  - inversion H; subst. exists []. split; [reflexivity|constructor].
+  - cbn [enc_descriptors] in H. destruct (enc_descriptor d) as [a| |] eqn:Ea; cbn [res_bind] in H; try discriminate H.
+    destruct (enc_descriptors ds) as [r| |] eqn:Er; cbn [res_map] in H; try discriminate H.
+    inversion H; subst. inversion HF; subst. apply items_bytes_ok_app_inv in Hok. destruct Hok as [Hoa Hor].
+    destruct (enc_descriptor_body_facts d a Ea Hoa ltac:(assumption)) as (b & Eb & Hf & Hbits).
+    destruct (IH r eq_refl Hor ltac:(assumption)) as (bodies & Ebs & HF2).
+    exists (b :: bodies). split; [|constructor; assumption].
+    rewrite (bytes_of_items_app _ _ (2 + desc_size d)) by assumption. rewrite Eb, Ebs. reflexivity.
+Qed.
+
+Lemma byte_of_mid0 pre x l : byte_of (pre ++ x :: l) (zlen pre) = x.
+Proof. unfold byte_of, zlen. rewrite Nat2Z.id, app_nth2, Nat.sub_diag by lia. reflexivity. Qed.
+Lemma byte_of_mid1 pre x y l : byte_of (pre ++ x :: y :: l) (zlen pre + 1) = y.
+Proof.
+  unfold byte_of, zlen. replace (Z.to_nat (Z.of_nat (length pre) + 1)) with (length pre + 1)%nat by lia.
+  rewrite app_nth2 by lia. replace (length pre + 1 - length pre)%nat with 1%nat by lia. reflexivity.
+Qed.
+
+Lemma loop_size_cons d ds : loop_size (d :: ds) = 2 + desc_size d + loop_size ds.
+Proof. reflexivity. Qed.
+Lemma loop_size_nonneg ds : 0 <= loop_size ds.
+Proof. apply sumZ_nonneg. intros x. pose proof (desc_size_nonneg x). lia. Qed.
+
+Lemma tlv_parse_empty' hdr body bs endp pos tag ds fin :
+  pos < endp -> 0 <= pos -> pos + 2 <= zlen bs -> byte_of bs pos = tag -> byte_of bs (pos + 1) = 0 ->
+  tlv_parse hdr body bs endp (pos + 2) ds fin -> tlv_parse hdr body bs endp pos (hdr tag 0 :: ds) fin.
+Proof.
+  intros H1 H2 H3 <- E0 Ht. replace (hdr (byte_of bs pos) 0) with (hdr (byte_of bs pos) (byte_of bs (pos + 1))) by (rewrite E0; reflexivity).
+  apply tlv_parse_empty; try assumption. lia.
+Qed.
+
+Lemma tlv_parse_body' hdr body bs endp pos tag len d i' ds fin :
+  pos < endp -> 0 <= pos -> pos + 2 <= zlen bs -> byte_of bs pos = tag -> byte_of bs (pos + 1) = len -> 0 < len ->
+  body tag len (pos + 2 + len) (mk_iter bs (pos + 2)) = Ok (d, i') ->
+  tlv_parse hdr body bs endp (pos + 2 + len) ds fin -> tlv_parse hdr body bs endp pos (d :: ds) fin.
+Proof. intros H1 H2 H3 <- <- Hl Eb Ht. eapply tlv_parse_body; eassumption. Qed.
+
+Lemma loop_tlv ds ds' : Forall2 entry_rt ds ds' -> forall bodies, Forall2 body_facts ds bodies ->
+  forall pre rest endp, endp = zlen pre + loop_size ds ->
+  tlv_parse desc_hdr parse_descriptor_body (pre ++ loop_bytes ds bodies ++ rest) endp (zlen pre) ds' endp.
+Proof.
+  induction 1 as [|d d' ds ds' (Htag & Hlt & Hcase) _ IH]; intros bodies HB pre rest endp He.
+  - inversion HB; subst. replace (zlen pre + loop_size []) with (zlen pre) by (unfold loop_size; cbn; lia).
+    apply tlv_parse_done. lia.
+  - inversion HB as [|? b ? bodies' (Hzl & Hb0 & Hbi) HB']; subst. cbn [loop_bytes]. unfold entry_bytes.
+    pose proof (desc_size_nonneg d) as Hnn. pose proof (loop_size_nonneg ds) as Hln. pose proof (zlen_nonneg pre) as Hpn.
+    destruct (emitted_nowrap d Hlt) as [_ Ec]. rewrite Ec, !Z.mod_small by lia.
+    rewrite loop_size_cons.
+    set (tail := loop_bytes ds bodies').
+    set (tg := Descriptor_Tag d) in *. set (sz := desc_size d) in *.
+    set (buf := pre ++ (([tg; sz] ++ b) ++ tail) ++ rest).
+    assert (Ebuf : buf = pre ++ tg :: sz :: b ++ tail ++ rest) by (unfold buf; cbn [app]; rewrite <- app_assoc; reflexivity).
+    assert (Hz : zlen buf = zlen pre + 2 + sz + zlen tail + zlen rest).
+    { rewrite Ebuf, zlen_app, !zlen_cons, !zlen_app. lia. }
+    pose proof (zlen_nonneg tail). pose proof (zlen_nonneg rest).
+    assert (Et : byte_of buf (zlen pre) = tg) by (rewrite Ebuf; apply byte_of_mid0).
+    assert (El : byte_of buf (zlen pre + 1) = sz) by (rewrite Ebuf; apply byte_of_mid1).
+    destruct Hcase as [(Hs0 & ->)|(Hpos & Hrt)].
+    + assert (Eb0 : b = []) by (apply Hb0; exact Hs0).
+      apply tlv_parse_empty'; try lia; try assumption.
+      assert (Eb2 : buf = (pre ++ [tg; sz]) ++ tail ++ rest) by (rewrite Ebuf, Eb0; cbn [app]; rewrite <- app_assoc; reflexivity).
+      rewrite Eb2. replace (zlen pre + 2) with (zlen (pre ++ [tg; sz])) by (rewrite zlen_app; reflexivity).
+      apply IH; [exact HB'|]. rewrite zlen_app. change (zlen [tg; sz]) with 2. lia.
+    + destruct (Hbi Hpos) as (bi & Ebi & Hbok & Ebb).
+      destruct (Hrt (pre ++ [tg; sz]) b (tail ++ rest) (ex_intro _ bi (conj Ebi (conj Hbok Ebb)))) as (i1 & Ei1).
+      assert (Eb2 : (pre ++ [tg; sz]) ++ b ++ tail ++ rest = buf) by (rewrite Ebuf, <- app_assoc; reflexivity).
+      assert (Ez2 : zlen (pre ++ [tg; sz]) = zlen pre + 2) by (rewrite zlen_app; reflexivity).
+      rewrite Eb2, Ez2 in Ei1.
+      apply (tlv_parse_body' _ _ _ _ _ tg sz d' i1); try lia; try assumption.
+      assert (Eb3 : buf = (pre ++ [tg; sz] ++ b) ++ tail ++ rest) by (rewrite Ebuf, <- !app_assoc; reflexivity).
+      rewrite Eb3. replace (zlen pre + 2 + sz) with (zlen (pre ++ [tg; sz] ++ b)) by (rewrite !zlen_app; change (zlen [tg; sz]) with 2; lia).
+      apply IH; [exact HB'|]. rewrite !zlen_app. change (zlen [tg; sz]) with 2. lia.
+Qed.
+
+(* a loop of any number of descriptors of mixed tags: parsing what writeDescriptorsWithLength emits yields the
+   entry-wise results and stops right behind the loop *)
+Theorem loop_roundtrip ds ds' out rest :
+  enc_descriptors_with_length ds = Ok out -> items_bytes_ok out -> loop_size ds < 4096 ->
+  Forall2 entry_rt ds ds' ->
+  parse_descriptors (new_iter (bytes_of_items out ++ rest)) = Ok (ds', mk_iter (bytes_of_items out ++ rest) (2 + loop_size ds)).
+Proof.
+  intros H Hok Hl HR.
+  assert (HF : Forall (fun d => desc_size d < 256) ds).
+  { clear -HR. induction HR as [|d d' ds ds' (_ & Hlt & _) _ IH]; constructor; assumption. }
+  destruct (descriptors_with_length_exact ds out H Hok HF Hl) as (hdr0 & bodies0 & _ & _ & _ & Hbits & Hlen).
+  unfold enc_descriptors_with_length in H.
+  destruct (enc_descriptors ds) as [its| |] eqn:E; cbn [res_map] in H; try discriminate H.
+  assert (Eo : out = [WBits 4 255; WBits 12 (calc_descriptors_length ds)] ++ its) by (inversion H; reflexivity).
+  subst out; clear H. apply items_bytes_ok_app_inv in Hok. destruct Hok as [Hoh Hoi].
+  destruct (enc_descriptors_bodies ds its E Hoi HF) as (bodies & Eb & HB).
+  set (hd := [WBits 4 255; WBits 12 (calc_descriptors_length ds)]) in *.
+  assert (Hh2 : zlen (bytes_of_items hd) = 2) by (apply bytes_of_items_zlen; [assumption|unfold hd; bl; reflexivity]).
+  destruct (bytes_of_items hd) as [|h0 [|h1 [|h2 hl]]] eqn:Ehd; unfold zlen in Hh2; cbn [length] in Hh2; try lia.
+  rewrite (bytes_of_items_app hd its 2) in * by (auto; unfold hd; bl; reflexivity). rewrite Ehd, Eb in *.
+  set (buf := ([h0; h1] ++ loop_bytes ds bodies) ++ rest).
+  assert (Ebuf : buf = [h0; h1] ++ loop_bytes ds bodies ++ rest) by (unfold buf; rewrite <- app_assoc; reflexivity).
+  assert (Hl0 : loop_length_at buf 0 = loop_size ds).
+  { rewrite Hlen in Hbits. cbn [app] in Hbits. rewrite bitsf_prefix2 in Hbits.
+    replace (loop_size ds) with (bitsf [h0; h1] 4 12) by lia. symmetry. rewrite Ebuf. apply loop_length_bits; reflexivity. }
+  pose proof (loop_size_nonneg ds) as Hnn.
+  unfold parse_descriptors, new_iter. fold buf.
+  apply parse_descriptors_complete; [apply pres_parse_descriptor_body|lia| |].
+  - unfold buf. rewrite zlen_app, Hlen. pose proof (zlen_nonneg rest). lia.
+  - rewrite Hl0, Ebuf. change (0 + 2) with (zlen [h0; h1]).
+    replace (2 + loop_size ds) with (zlen [h0; h1] + loop_size ds) by reflexivity.
+    apply loop_tlv; [exact HR|exact HB|reflexivity].
+Qed.
